@@ -51,7 +51,7 @@ package builder
 //@ pred RecOK(p *parser) bool = (forall j int :: {p.recoveryStack[j]} 0 <= j && j < len(p.recoveryStack) ==> alloc(p.recoveryStack[j]))
 //@   | && (forall j int, k int :: {p.recoveryStack[j], p.vstack[k]} 0 <= j && j < len(p.recoveryStack) && 0 <= k && k < cap(p.vstack) ==> p.recoveryStack[j] != p.vstack[k])
 //@   | && (forall j int, l string :: {has(p.recoveryStack[j], l)} 0 <= j && j < len(p.recoveryStack) && has(p.recoveryStack[j], l) ==> IsNode(p.recoveryStack[j][l]))
-//@ pred Inv(p *parser) bool = Ctx(p) && SP(p.data, p.pt) && StateOK(p)
+//@ pred Inv(p *parser) bool = Ctx(p) && SP(p.data, p.pt) && StateOK(p) && MemoInv(p)
 //@ pred InRule(p *parser) bool = len(p.vstack) >= 1 && len(p.rstack) >= 1
 //@ #if dbg
 //@ pred DbgOK(p *parser) bool = p.ChoiceAltCnt != nil
@@ -568,6 +568,69 @@ package builder
 //@ pred StoreSame(p *parser) bool = true
 //@ #endif
 
+
+// ======================================================================================
+// Memoization (C06) and statistics
+// ======================================================================================
+//@ #if memo
+// EntryOK: a memo entry for node n at offset o records a derivable result, a true savepoint, and
+// respects the failure shape (nothing consumed, nil value).
+//@ pred EntryOK(d []byte, o int, n any, t resultTuple) bool = SP(d, t.end) && t.end.offset >= o
+//@   | && (!t.b ==> t.end.offset == o && t.v == nil)
+//@   | && ite(is(n, "*rule"), as(n, "*rule") != nil && DR(as(n, "*rule"), d, o, t.b, t.end.offset, t.v), IsNode(n) && D(n, d, o, t.b, t.end.offset, t.v))
+//@ pred MemoInv(p *parser) bool =
+//@   | (forall o int :: {has(p.memo, o)} has(p.memo, o) ==> p.memo[o] != nil && alloc(p.memo[o]))
+//@   | && (forall o1 int, o2 int :: {has(p.memo, o1), has(p.memo, o2)} has(p.memo, o1) && has(p.memo, o2) && o1 != o2 ==> p.memo[o1] != p.memo[o2])
+//@   | && (forall o int, n any :: {has(p.memo[o], n)} has(p.memo, o) && has(p.memo[o], n) ==> EntryOK(p.data, o, n, p.memo[o][n]))
+// MemoGrows: entries are never dropped (each (node, offset) pair is evaluated at most once).
+//@ pred MemoHas(p *parser, o int, n any) bool = has(p.memo, o) && has(p.memo[o], n)
+//@ pred MemoGrows(p *parser) bool = forall o int, n any :: {has(p.memo[o], n)} old(MemoHas(p, o, n)) ==> MemoHas(p, o, n)
+
+//@ func (p *parser) getMemoized(node any) (res resultTuple, ok bool)
+//@   requires [ctx] p != nil
+//@   pure
+//@   ensures [hit C06] ok == MemoHas(p, p.pt.offset, node)
+//@   ensures [value C06] ok ==> res == p.memo[p.pt.offset][node]
+//@   safety C11
+//@   frame C18
+
+//@ func (p *parser) setMemoized(pt savepoint, node any, tuple resultTuple)
+//@   requires [ctx] p != nil && MemoInv(p)
+//@   requires [entry-sound C06 C08] EntryOK(p.data, pt.offset, node, tuple)
+//@   modifies p.memo, all map[int]map[any]resultTuple, all map[any]resultTuple
+//@   ensures [stored C06] MemoHas(p, pt.offset, node) && p.memo[pt.offset][node] == tuple
+//@   ensures [inv C06] MemoInv(p)
+//@   ensures [grows C06] MemoGrows(p)
+//@   safety C11
+//@   frame C18
+//@ #else
+//@ pred MemoInv(p *parser) bool = true
+//@ pred MemoGrows(p *parser) bool = true
+//@ #endif
+
+//@ #if dbg
+//@ func (p *parser) incChoiceAltCnt(ch *choiceExpr, altI int)
+//@   requires [ctx] Ctx(p) && InRule(p) && ch != nil
+//@   modifies all map[string]map[string]int, all map[string]int
+//@   safety C11
+//@   frame C06 C18
+
+//@ func (p *parser) parseRuleMemoize(rule *rule) (val any, ok bool)
+//@   requires [inv] Inv(p) && rule != nil
+//@   modifies PS
+//@   panics [any] true
+//@   ensures [inv C01] Inv(p)
+//@   ensures [peg-rule C01 C06] DR(rule, p.data, old(p.pt.offset), ok, p.pt.offset, val)
+//@   ensures [shape C01 C06] Shape(p, val, ok)
+//@   ensures [store C05] StoreC(p, ok)
+//@   ensures [stacks C02 C11 C14] Stacks(p)
+//@   ensures [invert C12] p.maxFailInvertExpected == old(p.maxFailInvertExpected)
+//@   ensures [budget C16] p.ExprCnt >= old(p.ExprCnt) && (old(p.ExprCnt) <= p.maxExprCnt ==> p.ExprCnt <= p.maxExprCnt)
+//@   ensures [memoized C06] MemoHas(p, old(p.pt.offset), rule) && MemoGrows(p)
+//@   safety C11
+//@   frame C18
+//@ #endif
+
 // ======================================================================================
 // User code blocks: declared call contracts (assumption about user code: a block touches only
 // the user-visible stores and its own data; it may panic)
@@ -597,7 +660,7 @@ package builder
 // Stacks: the three stacks are as they were (balanced push/pop; no frame replaced).
 // Budget: the expression counter only grows and stays within the budget (C16).
 //@ pred Budget(p *parser) bool = p.ExprCnt >= old(p.ExprCnt) && p.ExprCnt <= p.maxExprCnt
-//@ pred Stacks(p *parser) bool = SameMaps(p.vstack, old(p.vstack)) && SameRules(p.rstack, old(p.rstack)) && SameMaps(p.recoveryStack, old(p.recoveryStack)) && RecStable(p)
+//@ pred Stacks(p *parser) bool = SameMaps(p.vstack, old(p.vstack)) && SameRules(p.rstack, old(p.rstack)) && SameMaps(p.recoveryStack, old(p.recoveryStack)) && RecStable(p) && MemoGrows(p)
 // RecStable: the handler maps that were in force at entry still hold the same handlers.
 //@ pred RecStable(p *parser) bool = forall j int :: {old(p.recoveryStack)[j]} 0 <= j && j < len(old(p.recoveryStack)) ==>
 //@   | mapdom(old(p.recoveryStack)[j]) == old(mapdom(p.recoveryStack[j])) && mapval(old(p.recoveryStack)[j]) == old(mapval(p.recoveryStack[j]))
@@ -628,7 +691,7 @@ package builder
 //@   ensures [stacks C02 C14] Stacks(p)
 //@   ensures [invert C12] p.maxFailInvertExpected == old(p.maxFailInvertExpected)
 //@   ensures [charges C16] p.ExprCnt > old(p.ExprCnt)
-//@   ensures [budget C16] p.ExprCnt <= p.maxExprCnt
+//@   ensures [budget C16] p.ExprCnt >= old(p.ExprCnt) && (old(p.ExprCnt) <= p.maxExprCnt ==> p.ExprCnt <= p.maxExprCnt)
 //@   safety C11
 //@   frame C18
 
@@ -642,7 +705,7 @@ package builder
 //@   ensures [store C05] StoreC(p, ok)
 //@   ensures [stacks C02 C11 C14] Stacks(p)
 //@   ensures [invert C12] p.maxFailInvertExpected == old(p.maxFailInvertExpected)
-//@   ensures [charges C16] p.ExprCnt > old(p.ExprCnt) && p.ExprCnt <= p.maxExprCnt
+//@   ensures [budget C16] p.ExprCnt >= old(p.ExprCnt) && (old(p.ExprCnt) <= p.maxExprCnt ==> p.ExprCnt <= p.maxExprCnt)
 //@   safety C11
 //@   frame C18
 
